@@ -798,4 +798,10 @@ def impl_roundtrip(case):
     import sympy
     fs1 = sorted(str(s) for s in e.free_symbols) if isinstance(e, sympy.Basic) else []
     fs2 = sorted(str(s) for s in e2.free_symbols) if isinstance(e2, sympy.Basic) else []
-    return {"text": text, "a": a, "b": b, "inexact": inex1 or inex2, "fs_equal": fs1 == fs2, "structurally_equal": bool(e == e2)}
+    # the UNINTERPRETED calls (sympy's AppliedUndef): a built-in that comes back as a plain unknown function of the same
+    # spelling has lost its meaning although both sides print alike
+    from sympy.core.function import AppliedUndef
+    un1 = sorted({str(f.func) for f in e.atoms(AppliedUndef)}) if isinstance(e, sympy.Basic) else []
+    un2 = sorted({str(f.func) for f in e2.atoms(AppliedUndef)}) if isinstance(e2, sympy.Basic) else []
+    return {"text": text, "a": a, "b": b, "inexact": inex1 or inex2, "fs_equal": fs1 == fs2, "structurally_equal": bool(e == e2),
+            "undef_equal": un1 == un2}
